@@ -60,6 +60,6 @@ theorem gateCycles_eq (cfg : Cfg) (ns : List Ins) :
     gateCycles cfg ns = cyclesGen cfg.alap cfg.allowPerm ns (O2of cfg ns) := rfl
 
 theorem pulseStarts_eq (cfg : Cfg) (ns : List Ins) :
-    pulseStarts cfg ns = startsGen cfg.alap cfg.allowPerm ns (O2of cfg ns) := rfl
+    pulseStarts cfg ns = startsGen cfg.alap cfg.allowPerm cfg.fx ns (O2of cfg ns) := rfl
 
 end QipVerif.Sched
